@@ -60,3 +60,8 @@ claim("C03", "MIR dominance / control-dependence rules, comparison tables, enum 
       "buffer; that a header needs matching magic and a valid tag (tag tables inverse, others rejected); that the blob index is used only after "
       "its checksum matched; that each corruption error kind maps to `remove index entry + miss`; the recover-mode table; the key guard. "
       "Panic-freedom under arbitrary bytes is not decided.", "DESIGN.md §4 C03")
+claim("C13", "who-may-call rules, `event == Evict` control-dependence atoms, constant tables per leave path, ownership flow of records leaving the index, sibling agreement",
+      "Decides that Pipe::send/flush are called only from the capacity-eviction paths, that piping is control-dependent on event == Evict and "
+      "flush pipes evict() garbage only (tagged Evict), the Replace/Remove/Clear/Evict constants of every leave path, that every record taken "
+      "out of the index is queued with an event or returned, and that the garbage-draining siblings agree and run outside the shard lock. "
+      "Exactly-once over histories is not decided.", "DESIGN.md §4 C13")
